@@ -1,7 +1,7 @@
 #!/bin/bash
 # runs every claimed check's quick (or given) tier sequentially; prints one line per check
 TIER=${1:-quick}; shift
-cd /verif
+cd "$(dirname "$(readlink -f "$0")")/.."   # the tree this script belongs to (a vp snapshot runs its own copy)
 IDS=${@:-$(ls checks.d | sed 's/.json//')}
 for id in $IDS; do
   s=$(date +%s)
